@@ -199,4 +199,117 @@ theorem rewrite_elision_maps_back (src : List UInt8) (augs : List Aug) (hok : Au
   have := elision_maps_back src (sortByStart augs) {} inv_init hok i s e n h
   simpa [rewrite] using this
 
+/-! ### every byte that `rewrite` keeps maps back to itself -/
+
+/-- one iteration only appends to the output -/
+theorem rwStep_dst_prefix (src : List UInt8) (st : RwSt) (a : Aug) :
+    ∃ x, (rwStep src st a).dst = st.dst ++ (src.drop st.pos).take (a.start - st.pos) ++ x := by
+  cases a with
+  | fakePackage s => exact ⟨_, by simp only [rwStep]; rfl⟩
+  | fakeFunc s br => exact ⟨_, by simp only [rwStep, List.append_assoc]; rfl⟩
+  | dots s e n => exact ⟨_, by simp only [rwStep]; rfl⟩
+
+theorem fold_dst_prefix (src : List UInt8) : ∀ (as : List Aug) (st : RwSt), ∃ x, (as.foldl (rwStep src) st).dst = st.dst ++ x
+  | [], st => ⟨[], by simp⟩
+  | a :: as, st => by
+    obtain ⟨x1, h1⟩ := rwStep_dst_prefix src st a
+    obtain ⟨x2, h2⟩ := fold_dst_prefix src as (rwStep src st a)
+    exact ⟨_, by simp only [List.foldl_cons, h2, h1, List.append_assoc]; rfl⟩
+
+/-- the augmented source as `rewrite` returns it -/
+def RwSt.whole (src : List UInt8) (st : RwSt) : List UInt8 := st.dst ++ src.drop st.pos ++ st.tail
+
+/-- **Every byte `rewrite` keeps maps back to itself.** A byte of the source that lies in no augmentation is found in the
+augmented source at an offset which `posAdjuster.Pos`, with the adjustments `rewrite` returned, takes back to the byte's
+own offset: whatever go/parser reports about retained code is reported at the place of that code in the version. -/
+theorem retained_byte_maps_back (src : List UInt8) : ∀ (as : List Aug) (st : RwSt), Inv st → AugsOK src st.pos as →
+    ∀ k, st.pos ≤ k → k < src.length → (∀ a ∈ as, ¬ (a.start ≤ k ∧ k < a.stop)) →
+    ∃ o, ((as.foldl (rwStep src) st).whole src)[o]? = src[k]? ∧ adjust (as.foldl (rwStep src) st).adjs o = k
+  | [], st, hi, _, k, hk, hlen, _ => by
+    refine ⟨st.dst.length + (k - st.pos), ?_, ?_⟩
+    · simp only [List.foldl_nil, RwSt.whole, List.append_assoc]
+      rw [List.getElem?_append_right (by omega)]
+      simp only [Nat.add_sub_cancel_left]
+      rw [List.getElem?_append_left (by simp only [List.length_drop]; omega)]
+      rw [List.getElem?_drop]
+      congr 1; omega
+    · simp only [List.foldl_nil]
+      have := adjust_split st.adjs [] (st.dst.length + (k - st.pos)) (fun p hp => by have := hi.offs p hp; omega) (by simp)
+      simp only [List.append_nil] at this
+      rw [this, hi.last]
+      have := hi.len
+      omega
+  | a :: as, st, hi, hok, k, hk, hlen, hout => by
+    obtain ⟨ha, hrest⟩ := hok
+    obtain ⟨hi1, hp1, hlen1, ⟨y1, hy1, hy1p⟩, _⟩ := rwStep_inv src st a hi ha
+    have hok1 : AugsOK src (rwStep src st a).pos as := by rw [hp1]; exact hrest
+    simp only [List.foldl_cons]
+    have hnot := hout a (List.mem_cons_self ..)
+    by_cases hlt : k < a.start
+    · -- copied in this iteration
+      obtain ⟨hpos, hstop, hse, _⟩ := ha
+      obtain ⟨x1, hx1⟩ := rwStep_dst_prefix src st a
+      obtain ⟨x2, hx2⟩ := fold_dst_prefix src as (rwStep src st a)
+      obtain ⟨_, ⟨y2, hy2, hy2p⟩, _⟩ := fold_inv src as (rwStep src st a) hi1 hok1
+      have hcl := copied_len src st.pos a.start hpos (by omega)
+      refine ⟨st.dst.length + (k - st.pos), ?_, ?_⟩
+      · simp only [RwSt.whole, hx2, hx1, List.append_assoc]
+        rw [List.getElem?_append_right (by omega)]
+        simp only [Nat.add_sub_cancel_left]
+        rw [List.getElem?_append_left (by rw [hcl]; omega)]
+        rw [List.getElem?_take_of_lt (by omega), List.getElem?_drop]
+        congr 1; omega
+      · rw [hy2, hy1, List.append_assoc]
+        have hx1len : (rwStep src st a).dst.length ≥ st.dst.length + (a.start - st.pos) := by
+          rw [hx1]; simp only [List.length_append, hcl]; omega
+        rw [adjust_split st.adjs (y1 ++ y2) _ (fun p hp => by have := hi.offs p hp; omega)
+          (fun p hp => by
+            rcases List.mem_append.1 hp with hp | hp
+            · -- an adjustment of this iteration sits after the copied bytes
+              have h1 := hy1p p hp
+              cases a with
+              | fakePackage s =>
+                have : y1 = [(st.dst.length + (s - st.pos), st.reduceBy + 10)] ∨ True := Or.inr trivial
+                simp only [rwStep, Aug.start] at hy1
+                have hy1' := List.append_cancel_left hy1
+                subst hy1'
+                simp only [List.mem_singleton] at hp
+                subst hp
+                simp only [List.length_append, Aug.start] at hcl ⊢
+                simp only [Aug.start] at hlt
+                omega
+              | fakeFunc s br =>
+                simp only [rwStep, Aug.start] at hy1
+                have hy1' := List.append_cancel_left hy1
+                subst hy1'
+                simp only [List.mem_singleton] at hp
+                subst hp
+                simp only [List.length_append, Aug.start] at hcl ⊢
+                simp only [Aug.start] at hlt
+                omega
+              | dots s e n =>
+                simp only [rwStep] at hy1
+                have : y1 = [] := by
+                  have := List.append_cancel_left (hy1.symm.trans (List.append_nil _).symm)
+                  exact this
+                subst this
+                simp at hp
+            · have := hy2p p hp; omega)]
+        rw [hi.last]
+        have := hi.len
+        omega
+    · -- at or after the end of this augmentation: left to the rest of the loop
+      have hge : a.stop ≤ k := by
+        have : ¬ (a.start ≤ k ∧ k < a.stop) := hnot
+        omega
+      exact retained_byte_maps_back src as (rwStep src st a) hi1 hok1 k (by rw [hp1]; exact hge) hlen
+        (fun a' ha' => hout a' (List.mem_cons_of_mem _ ha'))
+
+/-- the same for `rewrite` as it is called -/
+theorem rewrite_retained_byte_maps_back (src : List UInt8) (augs : List Aug) (hok : AugsOK src 0 (sortByStart augs))
+    (k : Nat) (hk : k < src.length) (hout : ∀ a ∈ sortByStart augs, ¬ (a.start ≤ k ∧ k < a.stop)) :
+    ∃ o, (rewrite src augs).1[o]? = src[k]? ∧ adjust (rewrite src augs).2.2 o = k := by
+  have := retained_byte_maps_back src (sortByStart augs) {} inv_init hok k (Nat.zero_le _) hk hout
+  simpa [rewrite, RwSt.whole] using this
+
 end Gopatch.Fnd
